@@ -180,3 +180,77 @@ pub fn events_fx() -> Alphabet {
     rules.one_buy = false;
     Alphabet::new("events-fx", evs, rules)
 }
+
+/// `oversell-2sec` (C05): two securities on the same dates, duplicated rows allowed, several SELL rows per day,
+/// repurchases inside the 30-day window.
+pub fn oversell_two_sec() -> Alphabet {
+    let b = base();
+    let mut evs = vec![];
+    for (i, o) in [-40i64, 0, 7].iter().enumerate() {
+        let d = off(b, *o);
+        evs.push(buy(d, "X", "10", &format!("{}", 10 + i), "1"));
+        evs.push(sell(d, "X", "10", &format!("{}", 20 + i), "1"));
+        evs.push(sell(d, "X", "4", &format!("{}", 21 + i), "0"));
+        evs.push(buy(d, "Y", "4", &format!("{}", 5 + i), "0"));
+        evs.push(sell(d, "Y", "1", &format!("{}", 7 + i), "0"));
+        evs.push(dividend(d, "Y", "3", "0"));
+    }
+    let mut rules = Rules::STRICT;
+    rules.allow_dup = true;
+    rules.one_sell = false;
+    rules.one_buy = false;
+    Alphabet::new("oversell-2sec", evs, rules)
+}
+
+/// A line order in which rows of one (date, security, kind) group are NOT adjacent whenever the day has rows of
+/// another group: within each date, round-robin over the (security, kind) groups.
+pub fn interleaved(txs: &[Transaction]) -> Vec<Transaction> {
+    interleaved_by(txs, false)
+}
+/// Same, but purchases come before sales in each round (BUY a, SELL, BUY b: the two purchases are not adjacent).
+pub fn interleaved_buys_first(txs: &[Transaction]) -> Vec<Transaction> {
+    interleaved_by(txs, true)
+}
+/// Both interleavings that differ from the given order.
+pub fn other_orders(txs: &[Transaction]) -> Vec<Vec<Transaction>> {
+    let mut v = vec![];
+    for o in [interleaved(txs), interleaved_buys_first(txs)] {
+        if o != txs && !v.contains(&o) {
+            v.push(o);
+        }
+    }
+    v
+}
+fn interleaved_by(txs: &[Transaction], buys_first: bool) -> Vec<Transaction> {
+    use std::collections::BTreeMap;
+    let mut by_date: BTreeMap<chrono::NaiveDate, Vec<&Transaction>> = BTreeMap::new();
+    for t in txs {
+        by_date.entry(t.date).or_default().push(t);
+    }
+    let mut out = vec![];
+    for (_, rows) in by_date {
+        let mut groups: BTreeMap<(String, u8), Vec<&Transaction>> = BTreeMap::new();
+        for t in rows {
+            let k = match class_of(t) {
+                Class::Sell => if buys_first { 1u8 } else { 0u8 },
+                Class::Buy => if buys_first { 0 } else { 1 },
+                Class::Div => 2,
+                Class::Adj => 3,
+                Class::Corp => 4,
+            };
+            groups.entry((t.ticker.clone(), k)).or_default().push(t);
+        }
+        // sells of X first, then other groups, then the next round
+        let max = groups.values().map(|g| g.len()).max().unwrap_or(0);
+        let mut keys: Vec<(String, u8)> = groups.keys().cloned().collect();
+        keys.sort_by(|a, b| (a.1, &a.0).cmp(&(b.1, &b.0)));
+        for round in 0..max {
+            for k in &keys {
+                if let Some(t) = groups[k].get(round) {
+                    out.push((*t).clone());
+                }
+            }
+        }
+    }
+    out
+}
